@@ -18,8 +18,9 @@ def run(ctx):
     l1.run_k1(ctx)
     from props import asm_hmac, jobwrite
     jobwrite.run(ctx)                   # every .asm routine with an IMB_JOB* parameter: descriptor bytes other than status unchanged on every path
-    from props import asm_cmac
+    from props import asm_cmac, asm_sm3
     asm_cmac.run_family(ctx, PROP)
+    asm_sm3.run_family(ctx, PROP)
     asm_hmac.run_family(ctx, PROP)      # descriptor write set / status of the HMAC managers (machine code)
     ctx.samples.append('for ALL int e: imb_get_strerror(e) != NULL; IMB_ERR_MIN<e<IMB_ERR_MAX => a library message, listed once in imb_errno_types[]')
     ctx.samples.append('any ring state, any stale errno: SUBMIT_JOB leaves errno 0 on success / the validator code on rejection; every caller-owned field of every ring job unchanged')
